@@ -1,5 +1,10 @@
 package dicescript
 
+import (
+	"strings"
+	"unicode"
+)
+
 // customDiceMatch captures a regex match during parsing.
 type customDiceMatch struct {
 	item        *customDiceItem
@@ -141,7 +146,12 @@ func (d *ParserCustomData) tryMatchCustomDice(p *parser) (*customDiceMatch, bool
 			}
 			text := result.Display
 			if text == "" {
-				text = matchedText
+				// 过程文本默认用匹配到的原文，但不带它末尾吞掉的空白(ReadExpr 读到 ")" 后面的空格等)：
+				// 这段空白只有在后面还有剩余文本时才存在，过程文本不应因此不同
+				text = strings.TrimRightFunc(matchedText, unicode.IsSpace)
+				if text == "" {
+					text = matchedText
+				}
 			}
 			match := &customDiceMatch{
 				item:        item,
